@@ -26,11 +26,19 @@ theorem RtSys.safe_prodStep (s : RtSys) (i : Nat) (h : s.Safe) : (s.prodStep i).
       · simpa [RtSys.Safe, Rt.ringBell] using h
       · rename_i k d r
         split
-        · rename_i rt' hpush
-          have := Rt.push_true hpush
-          simp only [RtSys.Safe] at h ⊢
-          rw [this.1, ← h, List.append_assoc]
-        · simpa [RtSys.Safe] using h
+        · exact h
+        · split
+          · rename_i rt' hpush
+            have := Rt.push_true hpush
+            simp only [RtSys.Safe] at h ⊢
+            rw [this.1, ← h, List.append_assoc]
+          · simpa [RtSys.Safe] using h
+
+theorem RtSys.safe_take (s : RtSys) (m : Nat) (h : s.Safe) :
+    (s.delivered ++ [(s.rt.take m).2]).flatten ++ (s.rt.take m).1.ring = s.accepted := by
+  simp only [RtSys.Safe, Rt.take] at h ⊢
+  rw [← h]
+  simp [List.flatten_append, List.append_assoc]
 
 theorem RtSys.safe_consStep (s : RtSys) (h : s.Safe) : s.consStep.Safe := by
   unfold RtSys.consStep
@@ -40,10 +48,18 @@ theorem RtSys.safe_consStep (s : RtSys) (h : s.Safe) : s.consStep.Safe := by
     · split
       · simpa [RtSys.Safe] using h
       · simpa [RtSys.Safe] using h
-  · simpa [RtSys.Safe, Rt.drain] using h
-  · simp only [RtSys.Safe, Rt.pop] at h ⊢
-    rw [← h]
-    simp [List.flatten_append, List.append_assoc]
+  · split
+    · simpa [RtSys.Safe, Rt.drain] using h
+    · exact RtSys.safe_take s _ h
+  · exact RtSys.safe_take s _ h
+  · simpa [RtSys.Safe, Rt.rearm] using h
+  · exact h
+  · split <;> exact h
+  · split
+    · split
+      · simpa [RtSys.Safe, Rt.drain] using h
+      · exact h
+    · exact h
 
 theorem RtSys.safe_run (s : RtSys) (picks : List Nat) (h : s.Safe) : (s.run picks).Safe := by
   induction picks generalizing s with
@@ -58,7 +74,8 @@ theorem RtSys.safe_run (s : RtSys) (picks : List Nat) (h : s.Safe) : (s.run pick
 /-! ### no completion is left behind: a non-empty ring always has a doorbell ringing or about to ring -/
 
 def RtSys.Bell (s : RtSys) : Prop :=
-  s.rt.ring ≠ [] → s.rt.bell > 0 ∨ (∃ p ∈ s.prods, p.pendingRing = true) ∨ (∃ m, s.cph = .drained m)
+  s.order = .bellFirst → s.rt.ring ≠ [] →
+    s.rt.bell > 0 ∨ (∃ p ∈ s.prods, p.pendingRing = true) ∨ (∃ m, s.cph = .drained m) ∨ s.cph = .took
 
 theorem mem_set_self {α} (l : List α) (i : Nat) (x : α) (h : i < l.length) : x ∈ l.set i x := by
   exact List.mem_iff_getElem.mpr ⟨i, by simpa using h, by simp⟩
@@ -71,29 +88,31 @@ theorem RtSys.bell_prodStep (s : RtSys) (i : Nat) (h : s.Bell) : (s.prodStep i).
     have hi : i < s.prods.length := by
       rcases List.getElem?_eq_some_iff.mp hp with ⟨hi, _⟩; exact hi
     split
-    · intro _; left; simp [Rt.ringBell]
+    · intro _ _; left; simp [Rt.ringBell]
     · split
       · exact h
-      · intro _; left; simp [Rt.ringBell]
+      · intro _ _; left; simp [Rt.ringBell]
       · rename_i hpr _ k d r
         split
-        · intro _; right; left
-          exact ⟨_, mem_set_self _ _ _ hi, rfl⟩
-        · -- refused: shared state unchanged, but producer i's record changed (it had no pending ring)
-          intro hne
-          rcases h hne with hb | ⟨q, hq, hqp⟩ | hd
-          · left; exact hb
-          · right; left
-            by_cases hqe : q = p
-            · subst hqe; simp_all
-            · refine ⟨q, ?_, hqp⟩
-              rcases List.mem_iff_getElem.mp hq with ⟨j, hj, hjq⟩
-              have hji : j ≠ i := by
-                intro e; subst e
-                have : s.prods[j] = p := (List.getElem?_eq_some_iff.mp hp).2
-                exact hqe (hjq ▸ this)
-              exact List.mem_iff_getElem.mpr ⟨j, by simpa using hj, by simp [List.getElem_set, Ne.symm hji, hjq]⟩
-          · right; right; exact hd
+        · exact h
+        · split
+          · intro _ _; right; left
+            exact ⟨_, mem_set_self _ _ _ hi, rfl⟩
+          · -- refused: shared state unchanged, but producer i's record changed (it had no pending ring)
+            intro ho hne
+            rcases h ho hne with hb | ⟨q, hq, hqp⟩ | hd
+            · left; exact hb
+            · right; left
+              by_cases hqe : q = p
+              · subst hqe; simp_all
+              · refine ⟨q, ?_, hqp⟩
+                rcases List.mem_iff_getElem.mp hq with ⟨j, hj, hjq⟩
+                have hji : j ≠ i := by
+                  intro e; subst e
+                  have : s.prods[j] = p := (List.getElem?_eq_some_iff.mp hp).2
+                  exact hqe (hjq ▸ this)
+                exact List.mem_iff_getElem.mpr ⟨j, by simpa using hj, by simp [List.getElem_set, Ne.symm hji, hjq]⟩
+            · right; right; exact hd
 
 theorem RtSys.bell_consStep (s : RtSys) (h : s.Bell) : s.consStep.Bell := by
   unfold RtSys.consStep
@@ -103,22 +122,39 @@ theorem RtSys.bell_consStep (s : RtSys) (h : s.Bell) : s.consStep.Bell := by
     · exact h
     · split
       · rename_i hpoll
-        intro _; left
+        intro _ _; left
         simpa [Rt.poll] using hpoll
-      · intro hne
-        rcases h hne with hb | hp | ⟨m, hm⟩
+      · intro ho hne
+        rcases h ho hne with hb | hp | ⟨m, hm⟩ | ht
         · left; exact hb
         · right; left; exact hp
         · simp [hc] at hm
-  · intro _; right; right; exact ⟨_, rfl⟩
-  · intro hne
-    simp only [Rt.pop] at hne ⊢
+        · simp [hc] at ht
+  · split
+    · intro _ _; right; right; left; exact ⟨_, rfl⟩
+    · rename_i ho; intro ho'; simp only at ho'; rw [ho] at ho'; cases ho'
+  · intro _ _; right; right; right; rfl
+  · intro _ hne
     left
-    split
-    · rename_i he
-      rw [List.isEmpty_iff] at he
-      exact absurd he hne
-    · omega
+    simp only [Rt.rearm] at hne ⊢
+    have : s.rt.ring.isEmpty = false := by
+      cases hd : s.rt.ring with
+      | nil => exact absurd hd hne
+      | cons a l => rfl
+    simp [this]
+  · rename_i hc
+    intro ho hne
+    rcases h ho hne with hb | hp | ⟨m, hm⟩ | ht
+    · left; exact hb
+    · right; left; exact hp
+    · simp [hc] at hm
+    · simp [hc] at ht
+  · split
+    · rename_i ho; intro ho'; simp only at ho'; rw [ho] at ho'; cases ho'
+    · exact h
+  · split
+    · rename_i ho; intro ho'; simp only at ho'; rw [ho] at ho'; cases ho'
+    · exact h
 
 theorem RtSys.bell_run (s : RtSys) (picks : List Nat) (h : s.Bell) : (s.run picks).Bell := by
   induction picks generalizing s with
@@ -233,6 +269,8 @@ theorem RtSys.books_prodStep (s : RtSys) (i : Nat) (all : List Item) (h : s.Book
       · rename_i k d r hr
         have hposts : postsOf p.todo = (k, d) :: postsOf r := by simp [hr, postsOf]
         split
+        · exact h
+        split
         · simp only [RtSys.Books] at h ⊢
           have hperm := remaining_set_post s.prods i p { todo := r, pendingRing := true } (k, d) hp hposts
           refine List.Perm.trans ?_ h
@@ -254,12 +292,7 @@ theorem RtSys.books_prodStep (s : RtSys) (i : Nat) (all : List Item) (h : s.Book
 
 theorem RtSys.books_consStep (s : RtSys) (all : List Item) (h : s.Books all) : s.consStep.Books all := by
   unfold RtSys.consStep
-  split
-  · split
-    · exact h
-    · split <;> exact h
-  · exact h
-  · exact h
+  split <;> (try split) <;> (try split) <;> exact h
 
 theorem RtSys.books_run (s : RtSys) (picks : List Nat) (all : List Item) (h : s.Books all) : (s.run picks).Books all := by
   induction picks generalizing s with
